@@ -76,6 +76,7 @@ BOUNDS = {
         "g6": "g1 x g3: depth 0..3 x 3 spellings x 4 include mechanisms x sites x 4 arg sets x 4 context sets",
         "g8": "2 or 3 <%namespace file=> tags of one template pointing at libraries in different directories: every declaration order x call order as declared / reversed x 6 probes inside the library def (local.uri+self.uri, self.who()/local.who(), local.include_file, local.get_template, local.get_namespace, <%include>, all with a relative 't.html') x tag in a plain / derived / base template x 2 backings",
         "g9": "URI pairs that differ only in non-word characters (4 pairs, both orders) x {include, include first, namespace def, inherit}, each template declaring namespace 'n' with a different file; plus the control with a word-character difference; 2 backings",
+        "g10": "histories on one lookup: 12 templates reaching one library (import=*, import=names, named, inline defs in the tag, inheritable, include, inherit, API): all 144 ordered pairs a,b,a x 2 backings",
         "g7": "same namespace name 'h' declared in two files of one render: 12 ordered directory-depth pairs x {h.get_namespace, h.get_template, h.include_file, chained get_namespace} x {includer+included, template+namespace file, derived+base} x which call runs first x target beside both/first/second/neither x 2 backings",
     },
     "thorough": {
@@ -88,6 +89,7 @@ BOUNDS = {
         "g7": "as quick x 3 spellings (t.html, sub/t.html, ../t.html)",
         "g8": "as quick",
         "g9": "as quick",
+        "g10": "as quick",
     },
 }
 READY = True
@@ -871,6 +873,86 @@ def gen_g9(tier, al):
 
 
 # --------------------------------------------------------------------------
+# g10: histories on ONE lookup: several templates reaching the same library template in different ways
+# (import="*", import="name", named namespace, inline defs in the tag, inheritable, include, inherit, Namespace API),
+# rendered one after the other; every render must be what that template renders on its own (closed form)
+
+G10_LIB = '<%def name="libdef()">L</%def><%def name="other(a)">O${a}</%def><%block name="lb">K</%block>|lib-body'
+G10_MAINS = {
+    "star-with-inline-def": ('<%namespace file="lib.html" import="*"><%def name="extra()">X</%def></%namespace>[${extra()}${libdef()}${other(1)}]', "[XLO1]"),
+    "star": ('<%namespace file="lib.html" import="*"/>[${libdef()}${other(2)}]', "[LO2]"),
+    "star-with-other-inline-def": ('<%namespace file="lib.html" import="*"><%def name="more()">Y</%def></%namespace>[${more()}${libdef()}]', "[YL]"),
+    "star-inline-def-shadows": ('<%namespace file="lib.html" import="*"><%def name="libdef()">S</%def></%namespace>[${libdef()}${other(3)}]', "[SO3]"),
+    "named": ('<%namespace name="q" file="lib.html"/>[${q.libdef()}${q.other(4)}]', "[LO4]"),
+    "named-with-inline-def": ('<%namespace name="q" file="lib.html"><%def name="extra()">Z</%def></%namespace>[${q.extra()}${q.libdef()}]', "[ZL]"),
+    "import-names": ('<%namespace file="lib.html" import="libdef, other"/>[${libdef()}${other(5)}]', "[LO5]"),
+    "inheritable": ('<%inherit file="ibase.html"/>[${self.q.libdef()}${self.q.other(7)}]', "[LO7]"),
+    "include": ('[<%include file="lib.html"/>]', "[K|lib-body]"),
+    "inherit": ('<%inherit file="lib.html"/><%block name="lb">D</%block>', "D|lib-body"),
+    "api": ("[${context.lookup.get_template('/d/lib.html').get_def('libdef').render()}<% ns = local.get_namespace('lib.html') %>${ns.other(6)}]", "[LO6]"),
+    "star-attr-probe": ('<%namespace name="q" file="lib.html"/>[${hasattr(q, "extra")}${hasattr(q, "more")}${sorted(k for k in ("libdef", "other", "extra", "more", "lb") if hasattr(q, k))}]', "[FalseFalse['lb', 'libdef', 'other']]"),
+}
+
+
+def g10_cases(tier):
+    names = list(G10_MAINS)
+    for backing in ("put", "files"):
+        for a in names:
+            for b in names:
+                yield {"grid": "g10", "backing": backing, "order": [a, b, a]}
+
+
+def g10_execute(c):
+    from mako.lookup import TemplateLookup
+
+    files = {"/d/lib.html": G10_LIB, "/d/ibase.html": '<%namespace name="q" file="lib.html" inheritable="True"/>${next.body()}'}
+    for k, (src, _e) in G10_MAINS.items():
+        files["/d/" + k + ".html"] = src
+    wd = None
+    try:
+        if c["backing"] == "put":
+            lk = TemplateLookup()
+            for u in sorted(files):
+                lk.put_string(u, files[u])
+        else:
+            wd = _workdir()
+            for u in sorted(files):
+                _write(wd + u, files[u])
+            lk = TemplateLookup(directories=[wd])
+        obs = []
+        for k in c["order"]:
+            try:
+                obs.append("".join(lk.get_template("/d/" + k + ".html").render_unicode().split("\n")))
+            except Exception as e:  # noqa
+                obs.append("%s: %s" % (type(e).__name__, str(e)[:160]))
+        return obs
+    finally:
+        if wd is not None:
+            shutil.rmtree(wd, ignore_errors=True)
+
+
+def g10_check(c, st):
+    obs = g10_execute(c)
+    exp = [G10_MAINS[k][1] for k in c["order"]]
+    st.evaluations += len(obs)
+    st.traces += 1
+    st.states += 1
+    st.transitions += len(obs)
+    st.nontrivial += 1
+    st.oracles["history:closed-form"] += 1
+    ok = obs == exp
+    st.outcomes[("g10", "ok" if ok else "differs")] += 1
+    if not ok:
+        i = [x == y for x, y in zip(obs, exp)].index(False)
+        alone = g10_execute(dict(c, order=[c["order"][i]]))
+        if alone != [exp[i]]:
+            sig = "history:%s:differs on its own" % c["order"][i]
+        else:
+            sig = "history:%s:differs only after %s" % (c["order"][i], "+".join(c["order"][:i]))
+        st.violation(sig, c, "every render on one lookup equals what the template renders on its own (closed form)", expected=exp, observed=obs)
+
+
+# --------------------------------------------------------------------------
 # case stream
 
 GRIDS = {"g1": gen_g1, "g2": gen_g2, "g3": gen_g3, "g4": gen_g4, "g5": gen_g5, "g6": gen_g6, "g7": gen_g7, "g8": gen_g8, "g9": gen_g9}
@@ -1269,7 +1351,8 @@ def plan(tier, seed):
         for i in range(k):
             jobs.append({"grid": g, "tier": tier, "seed": seed, "shard": i, "nshards": k})
     # heavy grids first; the seed permutes the rest of the order only
-    jobs.sort(key=lambda j: ({"g5": 0, "g6": 1, "g1": 2, "g2": 3, "g7": 4, "g3": 5, "g8": 6, "g4": 7, "g9": 8}[j["grid"]], (j["shard"] + seed) % j["nshards"]))
+    jobs.append({"grid": "g10", "tier": tier, "seed": seed, "shard": 0, "nshards": 1})
+    jobs.sort(key=lambda j: ({"g10": 9, "g5": 0, "g6": 1, "g1": 2, "g2": 3, "g7": 4, "g3": 5, "g8": 6, "g4": 7, "g9": 8}[j["grid"]], (j["shard"] + seed) % j["nshards"]))
     return jobs
 
 
@@ -1278,6 +1361,11 @@ def run_job(job):
     t0w, t0c = time.time(), time.process_time()
     seen = set()
     sh, ns = job["shard"], job["nshards"]
+    if job["grid"] == "g10":
+        for c in g10_cases(job["tier"]):
+            g10_check(c, st)
+        st.extra["cases_g10"] = st.states
+        return st
     for files, M, ctx, meta in cases(job["grid"], job["tier"], job["seed"], sh, ns):
         case, it = make_case(files, M, ctx, meta)
         key = hashlib.sha1(repr((sorted(case["files"].items()), case["main"], sorted(case["ctx"].items()), case["backing"])).encode("utf-8")).digest()
@@ -1300,6 +1388,12 @@ def run_job(job):
 
 def replay(case):
     core.bind_repo()
+    if case.get("grid") == "g10":
+        st = Stats()
+        g10_check(case, st)
+        if st.violations:
+            return False, "reproduced: %r" % (st.violations[0]["observed"],)
+        return True, "holds"
     obs = execute(case)
     outcome, v = judge(case, obs)
     if v is None:
